@@ -137,6 +137,17 @@ CHECKS = {
         note="'All zones' is represented by six zones; one source -> one stored call (the comparison code is shared by all nodes).",
         technique="bounded-exhaustive enumeration of configurations against an instant-based reference oracle",
     ),
+
+    "C19": dict(
+        engine="E3", category="exploration",
+        text=("Complete enumeration of (kind of symbolic call x call-site nesting depth x workers): plan.call, explicit gather, implicit gather inside plan.call, unpack (the unpack call and its getitem nodes), "
+              "registry.add with failing write / failing read-back, registry.source with failing read, failing modified-time query of a source / of an added node, source run without its registry, and the gather run() builds for a container output; "
+              "creation happens through 0..6 nested helper calls on a raw thread whose stack starts at the harness entry, so real stacks of 2..8 frames (shallower than, equal to, deeper than the 4-frame limit) all occur. "
+              "The expected chain is captured with sys._getframe on the creating line itself; oracle: CallError.call is the failing call, its stack_frame chain equals the real stack innermost-first up to the limit, truncation marker iff more frames existed, and str(error) lists the same frames outermost first."),
+        design_ref="DESIGN.md section 4, C19",
+        note="getitem nodes of unpack cannot fail at run time; their frames are checked statically. Depths 0..6 cover both sides of MAX_TRACEBACK_DEPTH (read from the module at run time).",
+        technique="bounded-exhaustive enumeration of call-site kinds and stack depths against independently captured stacks",
+    ),
 }
 
 NOT_APPLICABLE = {
